@@ -7,7 +7,8 @@ For a generated corpus of texts, one shipped analyzer configuration and one fiel
  (b) by And of the tokens the same text yields in query mode (field.process_text(mode="query"), what the parser
      does) - and, for single whitespace-delimited pieces of the text that are free of parser syntax, by the query
      the real QueryParser builds for that piece;
- (c) for positional fields, by Phrase of tokens taken at any run of consecutive positions;
+ (c) for positional fields, by Phrase of tokens taken at any run of consecutive positions - of the index-time stream and
+     (c') of the query-time stream of the same text (a MultiFilter analyzer indexes more tokens than it queries);
  (d) positions never decrease in emission order, strictly increase for one-token-per-word analyzers, and follow
      the order of appearance (a token wholly before another in the text has no greater position);
  (e) character offsets delimit the token's source: 0<=start<=end<=len(text), and re-analysing exactly
@@ -471,6 +472,31 @@ def one_case(ctx, rng, CAT, names):
                         if did not in ids(query.Phrase("f", words)):
                             ctx.fail("c.phrase", "phrase-at-consecutive-positions-not-found:%s" % aname,
                                      dict(wit, words=[short(x, 40) for x in words], positions=run))
+                            break
+                # (c') the same reading with QUERY-time analysis of the document's text (what a quoted phrase typed by a user
+                # becomes): tokens at consecutive query-time positions must find the document by phrase as well
+                if has_positions:
+                    qana = schema["f"].analyzer
+                    try:
+                        qtoks = analyse(qana, text, "query") if qana is not None else []
+                    except Exception:  # noqa - reported by the analyze monitor
+                        qtoks = []
+                    qbypos = {}
+                    for t in qtoks:
+                        if t.pos is not None:
+                            qbypos.setdefault(t.pos, []).append(t.text)
+                    qps = sorted(qbypos)
+                    qruns = [qps[a:a + ln] for a in range(len(qps)) for ln in (2, 3)
+                             if a + ln <= len(qps) and qps[a + ln - 1] == qps[a] + ln - 1]
+                    rng2 = random.Random("c17-qphrase:%r" % rng.random())
+                    rng2.shuffle(qruns)
+                    for run in qruns[:3]:
+                        words = [rng2.choice(qbypos[p_]) for p_ in run]
+                        ctx.count("c.query_phrase_checks")
+                        if did not in ids(query.Phrase("f", words)):
+                            ctx.fail("c.phrase", "phrase-at-consecutive-query-time-positions-not-found:%s" % aname,
+                                     dict(wit, words=[short(x, 40) for x in words], query_positions=run,
+                                          index_tokens=[t.tup() for t in itoks[:16]], query_tokens=[t.tup() for t in qtoks[:16]]))
                             break
                 # (f) highlights
                 if has_offsets or True:
